@@ -1,6 +1,8 @@
-(* C04 — layered remapping fidelity.  Pinned statements (first layer of the development: the
-   decision rules of the property stated on the model's functions). *)
-From KV Require Import Keyberon.Layout Proofs.LayoutBasics.
+(* C04 — layered remapping fidelity.  Pinned statements: the decision rules of the property stated on
+   the model's functions, and the refinement theorem: on the fragment of the property the keyberon
+   layout model (queues, waiting states, one-shot, sequences, chords ... all present) produces, for
+   every history, exactly the key lists of the simple layered-keymap model of Spec/Keymap.v. *)
+From KV Require Import Spec.Keymap Keyberon.Layout Proofs.LayoutBasics Proofs.C04Refine.
 
 (* no event is lost, duplicated or reordered while fewer than 32 are pending: an event is appended
    at the back of the queue and has no other effect *)
@@ -49,3 +51,42 @@ Theorem C04_search_order_to_base : forall cfg l,
     Ok (current_layer l :: (if delegate_first cfg && negb (current_layer l =? 0) then [0] else [])).
 Proof. exact trans_order_v1. Qed.
 Print Assumptions C04_search_order_to_base.
+
+(* ---- refinement to the layered-keymap model (Spec/Keymap.v) ----
+   frag_cfg: every cell is built from plain keys, output chords, multi (nesting <= 30), no-op,
+   transparent, use-defsrc, layer-while-held of an existing layer, layer-switch, release-key/layer;
+   hist_ok: events are for coordinates of the tables and arrive while fewer than 32 are pending.
+   l_run feeds the inputs to Layout::event / Layout::tick and lists the keys held after each input. *)
+Theorem C04_refines_layered_keymap : forall cfg pause is,
+  frag_cfg cfg = true -> hist_ok cfg 0 is = true ->
+  l_run cfg (init_layout pause) is = Ok (km_run cfg km_init is).
+Proof. exact fresh_run_refines. Qed.
+Print Assumptions C04_refines_layered_keymap.
+
+(* the same from any state related to a keymap state (nothing pending but queued events) *)
+Theorem C04_refinement_from_related_state : forall cfg, frag_cfg cfg = true ->
+  forall is l m, SysRel cfg l m -> hist_ok cfg (length (km_pending m)) is = true ->
+  l_run cfg l is = Ok (km_run cfg m is).
+Proof. exact run_refines. Qed.
+Print Assumptions C04_refinement_from_related_state.
+
+(* one tick: the oldest pending event, and only it, takes effect; the state stays related *)
+Theorem C04_tick_applies_oldest_event : forall cfg qq l s,
+  frag_cfg cfg = true -> Rel qq l s -> st_ok cfg s ->
+  Forall (fun q => coord_ok cfg (q_coord q) = true) qq ->
+  exists l', layout_tick cfg l = Ok (l', CNone) /\
+    match qq with
+    | [] => Rel [] l' s
+    | e :: t => Rel (aged_q t) l' (if q_press e then km_press cfg (q_coord e) s else km_release (q_coord e) s)
+    end.
+Proof. exact tick_refines. Qed.
+Print Assumptions C04_tick_applies_oldest_event.
+
+(* the hypotheses hold for a concrete configuration and history with layers, chords, multi + transparent *)
+Theorem C04_refinement_not_vacuous :
+  frag_cfg ex_cfg = true /\ hist_ok ex_cfg 0 ex_hist = true /\
+  km_run ex_cfg km_init ex_hist =
+    [[]; []; []; [31]; [31]; [31]; [31]; [31; 29; 46]; [31; 29; 46]; [31; 29; 46]; [29; 46]; [];
+     []; []; []; []; [5; 29; 46]; [5; 4]].
+Proof. exact refinement_not_vacuous. Qed.
+Print Assumptions C04_refinement_not_vacuous.
